@@ -140,7 +140,9 @@ reg(Check("C12", "exploration",
           "and empty salt. Secrets: breadth-first search over histories of 23 operations (reset request for two addresses and an "
           "unknown one; current / wrong / foreign / superseded / suffix-less code; password logins incl. upper-case and empty; account "
           "creation with logins differing by case; 16 minutes passing), each from a fresh connection, to depth 5 (quick) / 9 (thorough) "
-          "against a reference model {address -> code, wrong guesses, used; login -> password}. "
+          "against a reference model {address -> code, wrong guesses, used; login -> password}. Passwords: stored lengths "
+          "{3,8,70,71,72,73,100} bytes x set at creation / by a later change x 8-10 near misses (one byte more, a NUL more, one byte "
+          "less, last byte differs, other case, empty, other tail, first 72 bytes): only the exact, stored password logs in. "
           "Non-trivial = distinct mutated tokens / keys / canonical model states.",
           ["HMAC-SHA256 / HMAC-MD5 / bcrypt are assumed unforgeable; expiry boundary second is not probed with the real clock",
            "reset codes are delivered through a fake validator ('mailbox'); a refused valid code is only counted once time has passed "
@@ -152,7 +154,8 @@ reg(Check("C12", "exploration",
           engine="E4 enum", claimed=True,
           parts=[Part("token", "server/auth/token", "^TestVerifC12Token$", shards=(12, 12)),
                  Part("secrets", SRV, "^TestVerifC12Secrets$", instr=True, deadline=(300, 3000), gomaxprocs=16),
-                 Part("apikey", SRV, "^TestVerifC12APIKey$", instr=True)]))
+                 Part("apikey", SRV, "^TestVerifC12APIKey$", instr=True),
+                 Part("passwords", SRV, "^TestVerifC12Passwords$", instr=True, shards=(16, 16))]))
 
 # machinery self-tests (not a property; never in MANIFEST)
 reg(Check("SELF", "other", "machinery self tests", [], claimed=False,
@@ -287,6 +290,7 @@ reg(Check("C13", "model_checking",
                  Part("races", SRV, "^TestVerifC13Races$", instr=True, shards=(16, 16), deadline=(300, 3000)),
                  Part("acl-fault", SRV, "^TestVerifC13AclFault$", instr=True, gomaxprocs=16, deadline=(300, 2400)),
                  Part("msg-fault", SRV, "^TestVerifC13MsgFault$", instr=True, gomaxprocs=16, deadline=(300, 2400)),
+                 Part("acc-reply", SRV, "^TestVerifC13AccReply$", instr=True, shards=(16, 16)),
                  Part("drafty", "server/drafty", "^TestVerifC13Drafty$", shards=(16, 16), deadline=(300, 2400))]))
 
 MSG_RULE = ("BFS over histories of {pub by 4 users (one with forged sender header + noecho), soft/hard delete with 6 (quick) / 11 (thorough) "
